@@ -35,6 +35,8 @@ def nativeFloat : FloatOps where
   abs64 := Float.abs
   neg64 := Float.neg
   sqrt64 := Float.sqrt
+  round64 := Float.round
+  toI8_64 x := x.toInt8.toInt
   lt64 a b := decide (a < b)
   eq64 a b := a == b
   isNaN64 := Float.isNaN
